@@ -126,6 +126,7 @@ func (e *Expr) Eval(ctx *Ctx) (res Value, err error) {
 	)
 
 	for i := int16(0); i < size; i++ {
+		verifStep(ctx, e, 0, i, osTop, len(os))
 		curt = nodes[i]
 		switch curt.flag & nodeTypeMask {
 		case fastOperator:
@@ -205,6 +206,7 @@ func (e *Expr) Eval(ctx *Ctx) (res Value, err error) {
 		}
 
 		os[osTop+1], osTop = res, osTop+1
+		verifStep(ctx, e, 1, i, osTop, len(os))
 	}
 	return os[0], nil
 }
@@ -235,6 +237,7 @@ func (e *Expr) TryEval(ctx *Ctx) (res Value, err error) {
 	)
 
 	for i := int16(0); i < size; i++ {
+		verifStep(ctx, e, 2, i, osTop, len(os))
 		curt = nodes[i]
 		switch curt.flag & nodeTypeMask {
 		case fastOperator:
@@ -306,6 +309,7 @@ func (e *Expr) TryEval(ctx *Ctx) (res Value, err error) {
 		}
 
 		os[osTop+1], osTop = res, osTop+1
+		verifStep(ctx, e, 3, i, osTop, len(os))
 	}
 	return os[0], nil
 }
